@@ -1,6 +1,6 @@
 import Goyang.Model.Identity
 import Goyang.Spec.Identity
-import Goyang.Lemmas.IdentitySurvGraph
+import Goyang.Lemmas.IdentitySurvEq
 /-
 C11 — each identity lists exactly its transitive derivations, once, in fixed order.
 Property theorems only; helper lemmas live in Goyang/Lemmas/Identity*.lean.
@@ -44,10 +44,23 @@ Hypotheses that appear, and why.
 * `errors_oracle_independent` (the error lists under two map orders are permutations of each other,
   same dictionary, same lists) needs (a') only — no `Linked`, no `WellFormed`.
 
-What is not proved here: that `survivorGraph r = graph r` up to the order of the lists when (c)
-holds (both groups of theorems cover that case separately); the specification's `registrations` answering (`some`) for every registry (the theorems
-take `survivorGraph r = some G` as hypothesis, the examples discharge it by `decide`; the runner's
-executable verdict `judge` still reports schemas with duplicate vertices as outside).
+The specification always answers (`specification_answers`): `graph r`, `registrations r` and
+`survivorGraph r` are `some` for EVERY registry — the rounds of `parts` and the step budget of the
+explicit-stack traversal always suffice — so the hypotheses `graph r = some G` /
+`survivorGraph r = some G` of the theorems only name the graph; `process_end_to_end_loaded` and
+`process_end_to_end_total` are the end-to-end theorems without them.
+The two groups are connected: when (c) holds, `survivorGraph r` is `graph r` up to the order of its
+lists (`survivor_graph_is_graph`: vertices, edges, dangling bases are permutations of each other,
+orphans and missing equal; the orders do differ, and without (c) it fails:
+`survivor_graph_is_graph_without_c_fails`); lists, errors, derivations, acyclicity do not see the
+order (`same_up_to_order_transports`); `process_end_to_end_via_surviving` (the statement of
+`process_end_to_end`) and `values_are_derived_via_surviving` are the first-group main theorems
+obtained as corollaries of the second group.
+
+What is not proved here: nothing about what the link stage reports under two map orders beyond its
+presence; the runner's executable verdict now judges schemas with several statements per vertex over
+`survivorGraph` (driver `spec.ident`), except two such statements within ONE (sub)module text, which
+the dump items cannot tell apart (still "outside": model and Go are compared only).
 -/
 namespace Goyang.Props.C11
 open Goyang.Model Goyang.Model.Identity
@@ -58,7 +71,8 @@ open Goyang.Lemmas.Identity (LinkOK Hyp RegOK resolveIdentities_graph vtxLt_iff 
   closure_spec walk_nil pairwise_before regOK_of_entries linkOK_of_all acyclic_of_rank
   regOK_of_loadAll linkAll_spec RegOK KeysDistinct keysDistinct_of_loadAll resolve_two_oracles
   resolveIdentities_survivors findIdentityBase_survivors survivorGraph_facts survivors_nodup derives_left_vertexS IdentifierNames
-  noColon_of_identifierNames buildDict_eq dictStep walk_congr foldlM_congr_opt mem_modulesByKey)
+  noColon_of_identifierNames buildDict_eq dictStep walk_congr foldlM_congr_opt mem_modulesByKey
+  GraphPerm survivorGraph_perm_graph graph_some survivorGraph_some registrations_some)
 
 /-- The include statements of every part of the schema are linked (see the header). -/
 abbrev Linked (r : Registry) (lk : Link) : Prop := LinkOK r lk
@@ -796,5 +810,169 @@ theorem values_are_derived_without_b_fails :
   cases hmem
 /-- … and the names of that example are not identifiers. -/
 example : isIdentifier "m:a" = false ∧ isIdentifier "a:b" = false ∧ isIdentifier "ietf-interfaces" = true := by decide
+
+/-! ### the specification always answers; the two groups of theorems connected
+
+`graph r`, `registrations r` and `survivorGraph r` are `some` for EVERY registry: the breadth-first
+rounds of `parts` and the step budget of the explicit-stack traversal always suffice.  So the
+hypotheses `graph r = some G` / `survivorGraph r = some G` above only NAME the graph.  And when
+hypothesis (c) holds, `survivorGraph r` is `graph r` up to the order of its lists, so the first
+group of theorems is a special case of the second. -/
+
+/-- The specification answers for every registry, loaded or not. -/
+theorem specification_answers (r : Registry) :
+    (∃ G, graph r = some G) ∧ (∃ R, registrations r = some R) ∧ ∃ G, survivorGraph r = some G :=
+  ⟨graph_some r, registrations_some r, survivorGraph_some r⟩
+
+/-- Same vertices, same edges, same dangling bases — each the same number of times (the lists are
+permutations of each other) — and the same orphans and missing references. -/
+abbrev SameUpToOrder (G' G : Graph) : Prop := GraphPerm G' G
+
+/-- With one identity statement per vertex every statement survives: `survivorGraph r` answers and
+is `graph r` up to the order of the lists (`graph` lists by ascending part of the schema,
+`survivorGraph` by registration; the example below shows the orders do differ). -/
+theorem survivor_graph_is_graph (r : Registry) (G : Graph) (hG : graph r = some G)
+    (hone : OneStatementPerVertex G) : ∃ G', survivorGraph r = some G' ∧ SameUpToOrder G' G :=
+  survivorGraph_perm_graph hG hone
+
+/-- Everything the theorems say about a graph is insensitive to the order of its lists. -/
+theorem same_up_to_order_transports (G' G : Graph) (h : SameUpToOrder G' G) :
+    (∀ v, v ∈ G'.verts ↔ v ∈ G.verts) ∧ (∀ j i, Derives G' j i ↔ Derives G j i) ∧
+    (∀ i l, ValuesOK G' i l ↔ ValuesOK G i l) ∧ (Acyclic G' ↔ Acyclic G) ∧
+    (AllBasesResolve G' ↔ AllBasesResolve G) ∧ (G'.dangling = [] ↔ G.dangling = []) ∧
+    G'.orphans = G.orphans ∧ (OneStatementPerVertex G' ↔ OneStatementPerVertex G) :=
+  ⟨fun _ => h.verts.mem_iff, h.derives_iff, h.valuesOK_iff, h.acyclic_iff, h.allBasesResolve_iff,
+    Goyang.Lemmas.Identity.perm_nil_iff h.dangling, h.orphans, h.one_iff⟩
+
+/-- Hypothesis (c) is needed for that: with two revisions of one module loaded `graph` has six
+vertices, `survivorGraph` four. -/
+theorem survivor_graph_is_graph_without_c_fails :
+    ¬ ∀ (r : Registry) (G : Graph), graph r = some G → ∃ G', survivorGraph r = some G' ∧ SameUpToOrder G' G := by
+  intro h
+  obtain ⟨G, hG⟩ := graph_some exR3
+  obtain ⟨G', hG', hp⟩ := h exR3 G hG
+  rw [example3_graph] at hG'
+  cases hG'
+  have h6 : (graph exR3).map (fun G => G.verts.length) = some 6 := by decide
+  rw [hG] at h6
+  simp only [Option.map_some, Option.some.injEq] at h6
+  have := hp.verts.length_eq
+  rw [h6] at this
+  exact absurd this (by decide)
+
+/-- `values_are_derived` (first group) obtained from `values_are_derived_surviving` (second group):
+under (c) the graph of the surviving statements is the identity graph.  (The second group asks for
+distinct table keys, which `WellFormed` does not mention; every loaded registry has them.) -/
+theorem values_are_derived_via_surviving (r : Registry) (lk : Link) (hl : Linked r lk) (hw : WellFormed r)
+    (hk : ModuleKeysDistinct r) (G : Graph) (hG : graph r = some G) (o : Oracle) (ho : o.Valid) :
+    ∃ res, resolveIdentities o r lk (fun _ => []) = some res ∧
+      ∀ i ∈ G.verts, ValuesOK G i (res.vals i) := by
+  obtain ⟨G', hG', hp⟩ := survivor_graph_is_graph r G hG (hw.one G hG)
+  obtain ⟨res, hres, _, hvals, _⟩ :=
+    values_are_derived_surviving r lk hl ⟨hw.reg, hk, hw.noColon⟩ G' hG' o ho
+  exact ⟨res, hres, fun i hi => (hp.valuesOK_iff i _).mp (hvals i (hp.verts.mem_iff.mpr hi))⟩
+
+/-- What `Process` does for identities on a registry with `LoadedOK`, over the surviving
+statements (the core of `process_end_to_end_surviving`, without the loading step). -/
+theorem process_surviving (r : Registry) (hw : LoadedOK r) (G : Graph) (hG : survivorGraph r = some G)
+    (o : Oracle) (ho : o.Valid) :
+    (∃ errs, run o r = .linkFailed errs ∧ errs ≠ []) ∨
+    (∃ res, run o r = .done res (identityrefLeaves r res.dict) ∧
+      (∀ i ∈ G.verts, ValuesOK G i (res.vals i)) ∧
+      (res.errs ≠ [] ↔ (G.dangling ≠ [] ∨ G.orphans ≠ [] ∨ ∃ v, Derives G v v))) := by
+  obtain ⟨lk, lerrs, hlink, hlinked⟩ := linkAll_spec o ho r
+  unfold run
+  simp only [hlink]
+  cases lerrs with
+  | cons e es => exact Or.inl ⟨e :: es, by simp, by simp⟩
+  | nil =>
+    right
+    have hl : Linked r lk := hlinked rfl
+    obtain ⟨res, hres, _, hvals, _⟩ := values_are_derived_surviving r lk hl hw G hG o ho
+    obtain ⟨res', hres', herr⟩ := errors_iff_surviving r lk hl hw G hG o ho
+    rw [hres] at hres'
+    cases hres'
+    exact ⟨res, by simp [hres], hvals, herr⟩
+
+/-- The main theorem of the first group, `process_end_to_end` (same statement), as a corollary of
+the second group: under (c) `survivorGraph r` is `graph r` up to order, and lists, errors and
+derivations do not see the order. -/
+theorem process_end_to_end_via_surviving (files : List SrcFile) (r : Registry) (hload : loadAll files = .ok r)
+    (hnc : ∀ m ∈ r.mods, ':' ∉ m.name.toList) (G : Graph) (hG : graph r = some G)
+    (hone : OneStatementPerVertex G) (o : Oracle) (ho : o.Valid) :
+    (∃ errs, run o r = .linkFailed errs ∧ errs ≠ []) ∨
+    (∃ res, run o r = .done res (identityrefLeaves r res.dict) ∧
+      (∀ i ∈ G.verts, ValuesOK G i (res.vals i)) ∧
+      (res.errs ≠ [] ↔ (G.dangling ≠ [] ∨ G.orphans ≠ [] ∨ ∃ v, Derives G v v))) := by
+  obtain ⟨G', hG', hp⟩ := survivor_graph_is_graph r G hG hone
+  have hw : LoadedOK r := ⟨regOK_of_loadAll hload, keysDistinct_of_loadAll hload, hnc⟩
+  rcases process_surviving r hw G' hG' o ho with h | ⟨res, hrun, hvals, herr⟩
+  · exact Or.inl h
+  · right
+    refine ⟨res, hrun, fun i hi => (hp.valuesOK_iff i _).mp (hvals i (hp.verts.mem_iff.mpr hi)), ?_⟩
+    rw [herr, Ne, Ne, Goyang.Lemmas.Identity.perm_nil_iff hp.dangling, hp.orphans]
+    constructor
+    · rintro (h | h | ⟨v, hv⟩)
+      · exact Or.inl h
+      · exact Or.inr (Or.inl h)
+      · exact Or.inr (Or.inr ⟨v, (hp.derives_iff v v).mp hv⟩)
+    · rintro (h | h | ⟨v, hv⟩)
+      · exact Or.inl h
+      · exact Or.inr (Or.inl h)
+      · exact Or.inr (Or.inr ⟨v, (hp.derives_iff v v).mpr hv⟩)
+
+/-- `process_end_to_end_surviving` without the hypothesis `survivorGraph r = some G`: from
+identifier-named texts that `Modules.add` accepted, for every map order — no hypothesis on the
+schema, none on the specification.  The graph of the surviving statements exists, defines every
+vertex once, and either an include/import is reported missing, or every surviving vertex gets the
+ascending list of exactly what is derived from it among the surviving statements and an error is
+reported exactly when one of them has a base that names no surviving vertex, an included submodule
+has no loaded owner, or a surviving vertex is derived from itself. -/
+theorem process_end_to_end_loaded (files : List SrcFile) (r : Registry) (hload : loadAll files = .ok r)
+    (hid : IdentifierNamed files) (o : Oracle) (ho : o.Valid) :
+    ∃ G, survivorGraph r = some G ∧ OneStatementPerVertex G ∧
+      ((∃ errs, run o r = .linkFailed errs ∧ errs ≠ []) ∨
+       (∃ res, run o r = .done res (identityrefLeaves r res.dict) ∧
+        (∀ i ∈ G.verts, ValuesOK G i (res.vals i)) ∧
+        (res.errs ≠ [] ↔ (G.dangling ≠ [] ∨ G.orphans ≠ [] ∨ ∃ v, Derives G v v)))) := by
+  obtain ⟨G, hG⟩ := survivorGraph_some r
+  exact ⟨G, hG, survivor_graph_one_per_vertex r G hG,
+    process_end_to_end_surviving files r hload hid G hG o ho⟩
+
+/-- The first group likewise loses `graph r = some G`: the identity graph exists, and when it has one
+statement per vertex the conclusion of `process_end_to_end` holds of it. -/
+theorem process_end_to_end_total (files : List SrcFile) (r : Registry) (hload : loadAll files = .ok r)
+    (hnc : ∀ m ∈ r.mods, ':' ∉ m.name.toList) (o : Oracle) (ho : o.Valid) :
+    ∃ G, graph r = some G ∧ (OneStatementPerVertex G →
+      ((∃ errs, run o r = .linkFailed errs ∧ errs ≠ []) ∨
+       (∃ res, run o r = .done res (identityrefLeaves r res.dict) ∧
+        (∀ i ∈ G.verts, ValuesOK G i (res.vals i)) ∧
+        (res.errs ≠ [] ↔ (G.dangling ≠ [] ∨ G.orphans ≠ [] ∨ ∃ v, Derives G v v))))) := by
+  obtain ⟨G, hG⟩ := graph_some r
+  exact ⟨G, hG, fun hone => process_end_to_end files r hload hnc G hG hone o ho⟩
+
+/-! non-vacuity of this section -/
+
+/-- The diamond example: hypotheses of `survivor_graph_is_graph`, `values_are_derived_via_surviving`
+and `process_end_to_end_via_surviving` hold of it … -/
+example : graph exR = some exG ∧ OneStatementPerVertex exG ∧ ModuleKeysDistinct exR ∧
+    (∀ m ∈ exR.mods, ':' ∉ m.name.toList) :=
+  ⟨by decide, by show exG.verts.Nodup; decide, by show (exR.modules.map (·.1)).Nodup; decide, by decide⟩
+example : ∃ G', survivorGraph exR = some G' ∧ SameUpToOrder G' exG :=
+  survivor_graph_is_graph exR exG (by decide) (by show exG.verts.Nodup; decide)
+/-- … and the two graphs are NOT equal as records: the vertex lists come in different orders. -/
+example : (survivorGraph exR).map (fun G => G.verts) ≠ (graph exR).map (fun G => G.verts) := by decide
+example : (survivorGraph exR).map (fun G => G.edges) ≠ (graph exR).map (fun G => G.edges) := by decide
+/-- `process_end_to_end_loaded` on the example with two revisions and a duplicate statement: all its
+hypotheses hold (`example3_loaded`, `example3_identifierNamed`, `exIdOracle_valid`), and the graph it
+speaks about is `exG3`. -/
+example : ∃ G, survivorGraph exR3 = some G ∧ OneStatementPerVertex G := by
+  obtain ⟨G, h1, h2, _⟩ :=
+    process_end_to_end_loaded exFiles3 exR3 example3_loaded example3_identifierNamed exIdOracle exIdOracle_valid
+  exact ⟨G, h1, h2⟩
+/-- A registry that no loading produced (a module table entry that points nowhere, a submodule in
+the module table): the specification still answers. -/
+example : ∃ G, survivorGraph { mods := [⟨7, exSubSB⟩, ⟨7, exModA⟩], modules := [("zz", 3), ("a", 7)] } = some G :=
+  (specification_answers _).2.2
 
 end Goyang.Props.C11
